@@ -85,7 +85,7 @@ static Verdict c02_quantity(const Case& c) {
     slots++;
     if (same_bits(nt, stored[i], ref[i])) bitequal++;
     double e = err_ulps(nt, stored[i], (Q)ref[i], (Q)ref[i]);
-    if (e > kOneUlp) return fail("value stored by Q(v, unit)", i, stored[i], ref[i], e, kOneUlp);
+    if (!(e <= kOneUlp)) return fail("value stored by Q(v, unit)", i, stored[i], ref[i], e, kOneUlp);
   }
   // independent of the library's own result: when the exact standard-unit value (x*F + O from the symbol expander) is comfortably inside the normal
   // range, the stored component must be finite, non-zero for non-zero input, and the read-back in the same unit must return the input
@@ -108,7 +108,7 @@ static Verdict c02_quantity(const Case& c) {
     for (int i = 0; i < n; i++) {
       if (!normal_or_zero(nt, ref[i]) || !normal_or_zero(nt, v[i])) continue;
       double e = err_ulps(nt, st2[i], (Q)ref[i], (Q)ref[i]);
-      if (e > kOneUlp) return fail(k == 0 ? "Create<unit>(numbers)" : k == 1 ? "Create<unit>(std::array)" : "Create<unit>(value type)", i, st2[i], ref[i], e, kOneUlp);
+      if (!(e <= kOneUlp)) return fail(k == 0 ? "Create<unit>(numbers)" : k == 1 ? "Create<unit>(std::array)" : "Create<unit>(value type)", i, st2[i], ref[i], e, kOneUlp);
     }
   }
   // read back in the same unit
@@ -119,15 +119,15 @@ static Verdict c02_quantity(const Case& c) {
     Q scale = fabsq((Q)v[i]);
     if (temperature) scale += 500;  // affine units form |v| + |offset/factor| (273.15 or 459.67) on the way
     double e = err_ulps(nt, out[i], (Q)v[i], scale);
-    if (e > 2.0) return Verdict::fail(fmt("%s<%s>: Q(v, %s).Value(%s) component %d is %s for input %s: %.3g ulp (allowed 2)", R->name, ntinfo(nt).name, R->unit_names[u], R->unit_names[u], i, hexld(out[i]).c_str(), hexld(v[i]).c_str(), e));
+    if (!(e <= 2.0)) return Verdict::fail(fmt("%s<%s>: Q(v, %s).Value(%s) component %d is %s for input %s: %.3g ulp (allowed 2)", R->name, ntinfo(nt).name, R->unit_names[u], R->unit_names[u], i, hexld(out[i]).c_str(), hexld(v[i]).c_str(), e));
   }
   // read in another unit: run-time, compile-time, and the four text forms
   LD ref2[9]; bool ok2[9];
   for (int i = 0; i < n; i++) { ref2[i] = R->convert_scalar(stored[i], R->standard, u2); ok2[i] = normal_or_zero(nt, stored[i]) && normal_or_zero(nt, ref2[i]) && std::isfinite(stored[i]) && !(ref2[i] == 0 && stored[i] != 0) && !std::isnan(ref[i]); }
   R->value_unit(stored, u2, out);
-  for (int i = 0; i < n; i++) if (ok2[i]) { double e = err_ulps(nt, out[i], (Q)ref2[i], (Q)ref2[i]); if (e > kOneUlp) return fail("Value(unit)", i, out[i], ref2[i], e, kOneUlp); }
+  for (int i = 0; i < n; i++) if (ok2[i]) { double e = err_ulps(nt, out[i], (Q)ref2[i], (Q)ref2[i]); if (!(e <= kOneUlp)) return fail("Value(unit)", i, out[i], ref2[i], e, kOneUlp); }
   R->static_value(stored, u2, out);
-  for (int i = 0; i < n; i++) if (ok2[i]) { double e = err_ulps(nt, out[i], (Q)ref2[i], (Q)ref2[i]); if (e > kOneUlp) return fail("StaticValue<unit>()", i, out[i], ref2[i], e, kOneUlp); }
+  for (int i = 0; i < n; i++) if (ok2[i]) { double e = err_ulps(nt, out[i], (Q)ref2[i], (Q)ref2[i]); if (!(e <= kOneUlp)) return fail("StaticValue<unit>()", i, out[i], ref2[i], e, kOneUlp); }
   bool allok = true; for (int i = 0; i < n; i++) allok = allok && ok2[i];
   if (allok) {
     unsigned long len; const char* p = R->unit_abbrev(u2, &len); const std::string ab = sstr(p, len);
@@ -143,7 +143,7 @@ static Verdict c02_quantity(const Case& c) {
       for (int i = 0; i < n; i++) {
         LD got = parse_in(nt, nums[(size_t)i]);
         double e = err_ulps(nt, got, (Q)ref2[i], (Q)ref2[i]);
-        if (e > kOneUlp) return fail(fn[form], i, got, ref2[i], e, kOneUlp);
+        if (!(e <= kOneUlp)) return fail(fn[form], i, got, ref2[i], e, kOneUlp);
       }
     }
   }
@@ -253,14 +253,14 @@ static Verdict c16_cast(const Case& c) {
       // vector only to float precision, so re-normalising it in double moves it by up to the float rounding error)
       const int coarse = ntinfo(to).mant < ntinfo(nt).mant ? to : nt;
       double e = err_ulps(coarse, out[i], (Q)want, (Q)1);
-      if (e > 2.0) return Verdict::fail(fmt("%s<%s> -> <%s> by %s: component %d is %s, cast gives %s (%.2f ulp of %s at 1, allowed 2)", R->name, ntinfo(nt).name, ntinfo(to).name, how, i, hexld(out[i]).c_str(), hexld(want).c_str(), e, ntinfo(coarse).name));
+      if (!(e <= 2.0)) return Verdict::fail(fmt("%s<%s> -> <%s> by %s: component %d is %s, cast gives %s (%.2f ulp of %s at 1, allowed 2)", R->name, ntinfo(nt).name, ntinfo(to).name, how, i, hexld(out[i]).c_str(), hexld(want).c_str(), e, ntinfo(coarse).name));
       norm += (Q)out[i] * (Q)out[i];
     }
     bool zero = true; for (int i = 0; i < n; i++) if (src[i] != 0) zero = false;
     // unit length to the precision of the coarser type: the converting constructor re-normalises, the converting assignment is a plain cast
     // (both are within two ulps of the cast); a float direction widened by assignment is a unit vector to float precision only
     const int coarse = ntinfo(to).mant < ntinfo(nt).mant ? to : nt;
-    if (!zero) { double e = (double)(fabsq(sqrtq(norm) - 1) / (Q)eps_of(coarse)); if (e > 4.0) return Verdict::fail(fmt("%s<%s> -> <%s> by %s: result has length 1 +- %.2f ulp of %s (allowed 4)", R->name, ntinfo(nt).name, ntinfo(to).name, how, e, ntinfo(coarse).name)); }
+    if (!zero) { double e = (double)(fabsq(sqrtq(norm) - 1) / (Q)eps_of(coarse)); if (!(e <= 4.0)) return Verdict::fail(fmt("%s<%s> -> <%s> by %s: result has length 1 +- %.2f ulp of %s (allowed 4)", R->name, ntinfo(nt).name, ntinfo(to).name, how, e, ntinfo(coarse).name)); }
     V.nontrivial = !zero;
     return V;
   }
